@@ -260,7 +260,7 @@ impl Prop for C01 {
         Mode::Threads
     }
     fn n_cases(&self, tier: Tier) -> u64 {
-        tier.pick(20_000, 1_500_000)
+        tier.pick(200_000, 1_500_000)
     }
     fn time_cap_s(&self, tier: Tier) -> u64 {
         tier.pick(90, 1200)
